@@ -2,7 +2,11 @@
 
 Modes:
   registry   E2: fresh WorkerRegistry with a recording dict (mutations logged from
-             inside its critical section), 2-4 controlled threads.
+             inside its critical section), 2-4 controlled threads.  Scenario
+             'heartbeat_delivery': the pushed notices heartbeat(alive)* /
+             heartbeat(dead) of 1-2 workers (1-2 incarnations each, numbered in
+             send order) are delivered to a host CourierServer._heartbeat by 2-4
+             handler threads in an arbitrary order.
   liveness   reference-model monitor: a fresh CourierClient with stub transport
              futures and a controllable clock; random histories of calls, late
              completions, unregister/register, clock advances; is_alive is
@@ -10,7 +14,11 @@ Modes:
   ownership  E2: 2-3 pools x 2-4 workers, acquire/release operations with
              pre-emption between check and act; belief-based ownership log.
   poolops    E4: pool-level operations over the simulated transport must leave
-             no worker acquired when they return or raise.
+             no worker acquired when they return or raise.  Pools may list
+             workers that are absent / have exited / are busy with an in-flight
+             call of another user; call_and_wait may get an unpicklable argument;
+             'as_completed_contended': a second pool sharing the Worker objects
+             probes acquire_by while the first pool's as_completed is running.
 """
 
 from __future__ import annotations
@@ -26,11 +34,16 @@ LEVEL = 'exploration'
 EXTRA_PATH = ('vlib/fakecourier',)
 RULE = (
     'a case is (mode, history, schedule): registry = 2-4 threads x 3-8 register/refresh/unregister/get '
-    'operations on 1-2 addresses with stale timestamps; liveness = 10-40 step history of clock '
+    'operations on 1-2 addresses with stale timestamps, or (heartbeat_delivery) 2-4 handler threads '
+    'delivering the numbered alive/dead notices of 1-2 workers x 1-2 incarnations in any order; '
+    'liveness = 10-40 step history of clock '
     'advances, calls, late completions (ok/error/cancelled), shutdown, server heartbeats and is_alive '
     'queries; ownership = 2-3 pool threads x 3-8 acquire_by/_acquire_all/next_idle_worker/'
     'release_all/release operations over 2-4 shared workers; poolops = call_and_wait/run/as_completed '
-    'normal and failing. Non-trivial = >= 2 threads touching one address / worker with >= 1 '
+    'normal and failing over pools of 1-3 workers each ok / absent / exited / busy (>= 1 ok), '
+    'call_and_wait with an unpicklable argument, run() with every worker busy for longer than its '
+    'give-up time (dilated clock), and as_completed (1-3 workers, parallelism 1-2, 1-5 timed tasks) '
+    'while a second pool probes acquire_by on the shared workers. Non-trivial = >= 2 threads touching one address / worker with >= 1 '
     'statement-level pre-emption (E2 modes), or a history with a late completion after an unregister '
     '(liveness); distinct = (history, schedule trace) hash')
 ASSUMPTIONS = [
@@ -38,10 +51,23 @@ ASSUMPTIONS = [
     'the transport of the E2/liveness modes is a stub whose futures the harness completes; the clock is a settable fake (time.time only)',
     'a pool only calls release on workers it believes it owns (acquire_by returned True) or through release_all',
     'scheduler assumptions as in C04; poolops uses the transport stand-in (C14 assumptions)',
+    'heartbeat_delivery: a worker sends its notices in order (alive..., dead, then possibly alive... of a restarted incarnation); the transport may deliver them in any order. Only an alive notice SENT BEFORE an already delivered dead notice counts as late; an alive notice sent after it (restart) may revive the worker; a stale dead notice killing a newer incarnation is not judged',
+    'a busy worker is one with max_parallelism in-flight calls issued through the public Worker.submit by another user of the same Worker singleton (no pool owns it); an absent worker has no server and refuses connections; an exited worker was alive, then died and its death notice unregistered it',
+    'as_completed_contended: the second pool only calls acquire_by / release(pool) on the shared workers; a worker counts as busy for the first pool strictly between the start and the end of the handler of one of its tasks (server side clock)',
 ]
 REQUIRED = ['registry_schedules', 'registry_mutations', 'liveness_queries', 'late_heartbeats',
             'ownership_schedules', 'acquire_events', 'release_events', 'poolops_cases',
-            'line_preemptions']
+            'line_preemptions', 'heartbeat_delivery_schedules', 'late_alive_deliveries',
+            'degraded_pool_cases', 'inspected_unusable_workers', 'unpicklable_argument_cases',
+            'all_busy_cases', 'contended_cases', 'contended_acquire_probes',
+            'exhausted_with_tasks_in_flight']
+# Mechanism keys of the audited root causes (classified by the scenario of the case).
+K_RUN_LEAK = 'pool-run-leaves-inspected-workers-acquired'
+K_CALL_LEAK = 'call-and-wait-leaks-workers-when-call-raises'
+K_AC_RELEASE = 'as-completed-releases-busy-workers'
+K_LATE_HB = 'late-alive-heartbeat-resurrects-dead-worker'
+# two concurrent pushed heartbeats: the handler that read the clock first registers last
+K_HB_BACKWARDS = 'pushed-heartbeat-register-overwrites-newer-timestamp'
 CHUNK_TIMEOUT_S = {'quick': 300, 'thorough': 3000}
 _uid = itertools.count()
 
@@ -51,10 +77,10 @@ def plan(tier, seed):
   chunks = 32
   out = []
   for i in range(chunks):
-    mode = ['registry', 'liveness', 'ownership', 'ownership', 'liveness', 'registry',
+    mode = ['registry', 'liveness', 'ownership', 'poolops', 'liveness', 'registry',
             'poolops', 'ownership'][i % 8]
     out.append({'chunk': i, 'mode': mode, 'rseed': seed,
-                'n': {'registry': 400, 'liveness': 300, 'ownership': 500, 'poolops': 12}[mode] * k})
+                'n': {'registry': 400, 'liveness': 300, 'ownership': 700, 'poolops': 12}[mode] * k})
   return out
 
 
@@ -124,6 +150,8 @@ def patch_modules(line_level=True):
 
 
 def run_registry_case(ctx, case):
+  if case.get('scenario') == 'heartbeat_delivery':
+    return run_heartbeat_case(ctx, case)
   from ml_metrics._src.utils import courier_utils
   from vlib.sched import core
   took = patch_modules()
@@ -218,6 +246,8 @@ def run_registry_case(ctx, case):
 
 
 def gen_registry_case(rng):
+  if rng.random() < 0.4:
+    return gen_heartbeat_case(rng)
   addrs = ['a', 'b'][:rng.randint(1, 2)]
   t = 10.0
   threads = []
@@ -233,6 +263,162 @@ def gen_registry_case(rng):
         ops.append([k, a])
     threads.append(ops)
   return {'mode': 'registry', 'threads': threads}
+
+
+# ---------------------------------------------------------------------------
+# registry: delivery order of pushed heartbeats (E2)
+# ---------------------------------------------------------------------------
+_host = {}
+
+
+def _host_server():
+  """One (never started) CourierServer per child: the host receiving pushed heartbeats."""
+  from ml_metrics._src.chainables import courier_server
+  from vlib import c20lib
+  from vlib.sched import core
+  if 'server' not in _host:
+    courier_server.signal = c20lib.NoSignal
+    courier_server.CourierServer.__del__ = lambda self: None
+    _host['server'] = courier_server.CourierServer(f'c20_host_{next(_uid)}')
+    core.install_line_yield([courier_server.CourierServer._heartbeat])  # pylint: disable=protected-access
+  return _host['server']
+
+
+def run_heartbeat_case(ctx, case):
+  """Notices [addr, send_seq, is_alive] are delivered by handler threads in any order."""
+  from ml_metrics._src.chainables import courier_server, courier_worker
+  from ml_metrics._src.utils import courier_utils
+  from vlib.sched import core
+  took = patch_modules()
+  host = _host_server()
+  clock = FakeClock()
+  courier_utils.time = clock
+  courier_worker.time = clock
+  courier_server.time = clock
+  sched = core.Scheduler(case['sched_seed'], strategy=case.get('strategy', 'random'),
+                         p_sync=0.5, p_line=0.3, max_steps=40000)
+  reg = courier_utils.WorkerRegistry()
+  courier_utils._worker_registry = reg  # pylint: disable=protected-access
+  log = []
+  cur_op = {}
+
+  class RecDict(dict):
+    def __setitem__(self, k, v):
+      st = core.ACTIVE.me() if core.ACTIVE else None
+      log.append(('write', k, self.get(k, 'MISSING'), v, cur_op.get(st.idx if st else -1)))
+      super().__setitem__(k, v)
+
+  reg.data = RecDict()
+  uid = next(_uid)
+  full = lambda a: f'hb_{uid}_{a}'
+  late_deliveries = [0]
+
+  def handler_thread(tid, notices):
+    st = core.ACTIVE.me()
+    for addr, seq, alive in notices:
+      cur_op[st.idx] = (addr, seq, alive)
+      clock.now += 1.0
+      # an alive notice whose handler starts after a later-sent dead notice was recorded
+      if alive and any(e[1] == full(addr) and e[3] is None and e[4] and e[4][1] > seq
+                       for e in log):
+        late_deliveries[0] += 1
+      host._heartbeat(full(addr), alive)  # pylint: disable=protected-access
+    cur_op[st.idx] = None
+
+  for tid, notices in enumerate(case['threads']):
+    sched.spawn(handler_thread, name=f'H{tid}', args=(tid, notices))
+  sched.run(20)
+  ctx.count('registry_schedules')
+  ctx.count('heartbeat_delivery_schedules')
+  ctx.count('line_preemptions', sched.line_preemptions)
+  writes = [e for e in log if e[0] == 'write']
+  ctx.count('registry_mutations', len(writes))
+  ctx.case((runner.stable_hash(case['threads']), sched.trace_hash()),
+           len(case['threads']) >= 2 and sched.line_preemptions >= 1)
+  if 'threading' not in took:
+    ctx.inconclusive_case('threading shim not installed', case)
+    return
+  if sched.status == 'deadlock':
+    ctx.violation('deadlock', case, sched.witness, mechanism='registry:heartbeat:deadlock')
+    return
+  if sched.status != 'ok':
+    ctx.inconclusive_case(sched.status, case)
+    return
+  for name, e in sched.thread_errors().items():
+    ctx.violation('thread_error', case, {name: repr(e)}, mechanism='registry:heartbeat:thread-error')
+  # offline checker over the mutation log (recorded inside the critical section)
+  value, dead_seqs, late_for = {}, {}, set()
+  n_late = 0
+  for e in writes:
+    _, k, old, new, op = e
+    cur = value.get(k, 'MISSING')
+    if old != cur:
+      ctx.violation('torn_update', case, {'entry': e, 'model': cur},
+                    mechanism='registry:heartbeat:write-on-stale-read')
+    if op is None or full(op[0]) != k:
+      ctx.violation('write_outside_a_notice', case, {'entry': e},
+                    mechanism='registry:heartbeat:foreign-write')
+      value[k] = new
+      continue
+    addr, seq, alive = op
+    if not alive:
+      if new is not None:
+        ctx.violation('dead_notice_not_recorded', case, {'entry': e},
+                      mechanism='registry:heartbeat:dead-notice-not-recorded')
+      dead_seqs.setdefault(addr, []).append(seq)
+    else:
+      late = any(d > seq for d in dead_seqs.get(addr, []))
+      if late:
+        n_late += 1
+        if cur is None and new is not None:
+          late_for.add(addr)
+          ctx.violation('dead_worker_resurrected', case,
+                        {'entry': e, 'delivered_dead_notices': dead_seqs.get(addr),
+                         'deliveries': [w[4] for w in writes]},
+                        mechanism=K_LATE_HB)
+      if isinstance(cur, (int, float)) and new is not None and new < cur:
+        ctx.violation('heartbeat_moved_backwards', case, {'entry': e},
+                      mechanism=K_HB_BACKWARDS)
+    value[k] = new
+  ctx.count('late_alive_deliveries', late_deliveries[0])
+  # observable end state: a worker whose LAST SENT notice is "dead" is not alive
+  sent = {}
+  for notices in case['threads']:
+    for addr, seq, alive in notices:
+      if addr not in sent or seq > sent[addr][0]:
+        sent[addr] = (seq, alive)
+  for addr, (seq, alive) in sorted(sent.items()):
+    if alive:
+      continue
+    w = courier_worker.Worker(full(addr))
+    w._client, w._heartbeat_client = StubClient(), StubClient()  # pylint: disable=protected-access
+    w._refresh_clients = lambda: None  # pylint: disable=protected-access
+    got = reg.get(full(addr))
+    if got != 0 or w.is_alive:
+      ctx.violation('dead_worker_reported_alive', case,
+                    {'address': addr, 'registry_get': got, 'is_alive': True,
+                     'deliveries': [x[4] for x in writes]},
+                    mechanism=K_LATE_HB if addr in late_for else 'registry:heartbeat:dead-reported-alive')
+  if len(ctx.samples) < 3 and n_late:
+    ctx.sample({'mode': 'registry', 'scenario': 'heartbeat_delivery', 'threads': case['threads'],
+                'deliveries': [w[4] for w in writes][:10]})
+
+
+def gen_heartbeat_case(rng):
+  notices = []
+  for a in ['a', 'b'][:rng.randint(1, 2)]:
+    seq = 0
+    for _ in range(rng.randint(1, 2)):          # incarnations of the worker process
+      for _ in range(rng.randint(1, 3)):
+        notices.append([a, seq, True])
+        seq += 1
+      if rng.random() < 0.85:
+        notices.append([a, seq, False])
+        seq += 1
+  rng.shuffle(notices)                          # delivery order is not the send order
+  k = rng.randint(2, 4)
+  return {'mode': 'registry', 'scenario': 'heartbeat_delivery',
+          'threads': [notices[i::k] for i in range(k)]}
 
 
 # ---------------------------------------------------------------------------
@@ -502,22 +688,68 @@ def gen_ownership_case(rng):
 # ---------------------------------------------------------------------------
 
 
+def _unreachable(sim, server):
+  """The worker process is gone and its port refuses connections."""
+  raw = server._server.address  # pylint: disable=protected-access
+  sim.kill(raw)
+  sim.refusing.add(raw)
+  sim.refusing.add(server.address)
+
+
 def run_poolops_case(ctx, case):
-  from vlib import c16lib, cwork
-  cwork.setup(scale=1.0)
+  if case.get('op') == 'as_completed_contended':
+    return run_contended_case(ctx, case)
+  import courier
+  from vlib import c16lib, c20lib, cwork
+  all_busy = case['op'] == 'run_all_busy'
+  # run() gives up after 180 library seconds: dilate the clock for that scenario.
+  scale = 200.0 if all_busy else 1.0
+  cwork.setup(scale=scale)
   from ml_metrics._src.chainables import courier_worker, lazy_fns, orchestrate
-  servers = cwork.start_servers(case['W'], 'c20w')
+  from ml_metrics._src.utils import courier_utils
+  sim = courier.sim
+  W = case['W']
+  states = case.get('states') or ['ok'] * W
+  par = case.get('par', 1)
+  servers, addrs = [], []
+  for st in states:
+    if st == 'absent':
+      addr = cwork.unique('c20absent')       # no server was ever started there
+      sim.refusing.add(addr)
+      servers.append(None)
+    else:
+      srv = cwork.start_servers(1, 'c20w')[0]
+      servers.append(srv)
+      addr = srv.address
+    addrs.append(addr)
   try:
-    pool = courier_worker.WorkerPool([s.address for s in servers], call_timeout=30,
-                                     max_parallelism=case.get('par', 1))
-    pool.wait_until_alive(deadline_secs=60, minimum_num_workers=case['W'])
+    pool = courier_worker.WorkerPool(addrs, call_timeout=0 if all_busy else 30,
+                                     max_parallelism=par)
+    n_up = sum(1 for st in states if st != 'absent')
+    pool.wait_until_alive(deadline_secs=60 * scale, minimum_num_workers=n_up)
+    if len(pool.workers) < n_up:
+      ctx.inconclusive_case('workers did not come up', case)
+      return
+    busy_s = 2.2 if all_busy else 0.5
+    for i, st in enumerate(states):
+      w = pool.all_workers[i]
+      if st == 'exited':
+        _unreachable(sim, servers[i])
+        courier_utils.worker_registry().unregister(w.address)   # its death notice
+      elif st == 'busy':
+        # another user of the same Worker singleton keeps it at capacity
+        for j in range(par):
+          w.submit(lazy_fns.trace(c16lib.task_fn)(900 + 10 * i + j, delay=busy_s))
     op, fail = case['op'], case['fail']
+    arg = case.get('arg')
     task = lambda i=0: lazy_fns.trace(c16lib.task_fn)(i, fail='value' if fail else None)
 
     def go():
       if op == 'call_and_wait':
+        if arg == 'unpicklable':
+          return pool.call_and_wait(task(), c20lib.Unpicklable())
         return pool.call_and_wait(task())
-      if op == 'run':
+      if op in ('run', 'run_all_busy'):
         return pool.run(task())
       if op == 'as_completed':
         return list(orchestrate.as_completed(pool, [task(i) for i in range(3)]))
@@ -525,30 +757,196 @@ def run_poolops_case(ctx, case):
 
     finished, res, exc = cwork.run_with_watchdog(go, 60)
     ctx.count('poolops_cases')
+    degraded = [i for i, st in enumerate(states) if st != 'ok']
+    if degraded:
+      ctx.count('degraded_pool_cases')
+    if arg == 'unpicklable':
+      ctx.count('unpicklable_argument_cases')
+    if all_busy:
+      ctx.count('all_busy_cases')
     ctx.case(('poolops', case), True)
     if not finished:
       ctx.inconclusive_case('poolops watchdog', case)
       return
-    if fail and exc is None:
+    if all_busy and (exc is None or 'No worker is available' not in str(exc)):
+      # (load) the busy calls ended before run() reached its give-up time
+      ctx.inconclusive_case(f'run() did not reach its give-up path: {exc!r}'[:200], case)
+      return
+    expect_raise = bool(fail or arg == 'unpicklable' or all_busy)
+    if expect_raise and exc is None:
       ctx.violation('error_swallowed', case, {'result': repr(res)[:200]},
                     mechanism=f'poolops:{op}:error-swallowed')
-    if not fail and exc is not None:
+    if not expect_raise and exc is not None:
       ctx.violation('unexpected_error', case, {'error': repr(exc)[:300]},
                     mechanism=f'poolops:{op}:raises:{type(exc).__name__}')
-    held = len(pool.acquired_workers)
-    locked = sum(1 for w in pool.all_workers if w.is_locked())
+    held = [i for i, w in enumerate(pool.all_workers) if w.is_locked(pool)]
+    locked = [i for i, w in enumerate(pool.all_workers) if w.is_locked()]
+    if op in ('run', 'run_all_busy'):
+      # workers listed before the first usable one are the ones run() walks over
+      first_ok = next((i for i, st in enumerate(states) if st == 'ok'), W)
+      ctx.count('inspected_unusable_workers', len([i for i in degraded if i < first_ok]))
     if held or locked:
-      ctx.violation('workers_not_released', case, {'held': held, 'locked': locked,
-                                                   'raised': repr(exc)[:120]},
-                    mechanism=f'poolops:{op}:not-released-after-' + ('raise' if exc else 'return'))
+      mech = f'poolops:{op}:not-released-after-' + ('raise' if exc else 'return')
+      if op in ('run', 'run_all_busy') and degraded and set(locked) <= set(degraded):
+        # only workers that run() inspected and rejected (absent / exited / busy)
+        mech = K_RUN_LEAK
+      elif (op == 'call_and_wait' and arg == 'unpicklable' and exc is not None
+            and 'pickling' in str(exc)):
+        mech = K_CALL_LEAK
+      ctx.violation('workers_not_released', case,
+                    {'held_by_pool': held, 'locked': locked, 'states': states,
+                     'raised': repr(exc)[:120]}, mechanism=mech)
+  finally:
+    cwork.stop_servers([s for s in servers if s is not None], join_s=0.5)
+    if scale != 1.0:
+      cwork.setup(scale=1.0)
+
+
+def run_contended_case(ctx, case):
+  """Pool A runs as_completed; pool B (same Worker objects) probes acquire_by."""
+  import threading
+  import time as real_time
+  from vlib import c20lib, cwork
+  cwork.setup(scale=1.0)
+  from ml_metrics._src.chainables import courier_worker, lazy_fns, orchestrate
+  W, par, durs = case['W'], case['par'], case['durs']
+  servers = cwork.start_servers(W, 'c20c')
+  try:
+    pool_a = courier_worker.WorkerPool([s.address for s in servers], call_timeout=30,
+                                       max_parallelism=par)
+    pool_a.wait_until_alive(deadline_secs=60, minimum_num_workers=W)
+    pool_b = courier_worker.WorkerPool(pool_a.all_workers)
+    shared = all(x is y for x, y in zip(pool_a.all_workers, pool_b.all_workers))
+    workers = pool_a.all_workers
+    base = next(_uid) * 1000
+    tasks = [lazy_fns.trace(c20lib.timed_task)(base + i, d) for i, d in enumerate(durs)]
+    my_ids = {base + i for i in range(len(durs))}
+    releases = []      # (time, explicit worker argument was empty, tasks of A in flight)
+    orig_release_all = pool_a.release_all
+    a_state = {'submitted': 0, 'delivered': 0, 'done': False}
+
+    def release_all(workers_=()):
+      ws = list(workers_)
+      releases.append((real_time.monotonic(), not ws,
+                       a_state['submitted'] - a_state['delivered'],
+                       sorted(i for i, w in enumerate(workers) if w.is_locked(pool_a)
+                              and len(w.pendings) >= 1)))
+      return orig_release_all(ws)
+
+    pool_a.release_all = release_all
+
+    def counted(it):
+      for t in it:
+        a_state['submitted'] += 1
+        yield t
+      # the task iterator is exhausted: are tasks of this run still in flight?
+      a_state['in_flight_at_exhaustion'] = a_state['submitted'] - a_state['delivered']
+
+    results = []
+
+    def go():
+      for r in orchestrate.as_completed(pool_a, counted(tasks)):
+        a_state['delivered'] += 1
+        results.append(r)
+
+    probes = []        # (worker index, t0, t1) of every acquire_by(B) that succeeded
+    n_probes = [0]
+    rnd = random.Random(case.get('probe_seed', 0))
+
+    def prober():
+      while not a_state['done']:
+        order = list(range(W))
+        rnd.shuffle(order)
+        for i in order:
+          t0 = real_time.monotonic()
+          ok = workers[i].acquire_by(pool_b)
+          t1 = real_time.monotonic()
+          n_probes[0] += 1
+          if ok:
+            probes.append((i, t0, t1))
+            workers[i].release(pool_b)
+        real_time.sleep(0.004)
+
+    pt = threading.Thread(target=prober, daemon=True)
+    pt.start()
+    finished, _, exc = cwork.run_with_watchdog(go, 60)
+    a_state['done'] = True
+    pt.join(5)
+    ctx.count('poolops_cases')
+    ctx.count('contended_cases')
+    ctx.count('contended_acquire_probes', n_probes[0])
+    ctx.case(('poolops', case), True)
+    if not finished or not shared:
+      ctx.inconclusive_case('contended watchdog / pools do not share the worker objects', case)
+      return
+    # the audited trigger: release_all() called with an empty worker set while tasks are in flight
+    trigger = [r for r in releases if r[1] and r[2] > 0]
+    if a_state.get('in_flight_at_exhaustion', 0) > 0:
+      ctx.count('exhausted_with_tasks_in_flight')
+    if exc is not None:
+      ctx.violation('unexpected_error', case, {'error': repr(exc)[:300]},
+                    mechanism=f'poolops:as_completed_contended:raises:{type(exc).__name__}')
+    ids = sorted(r[1] for r in results if isinstance(r, tuple) and r and r[0] == 'done')
+    if exc is None and ids != sorted(my_ids):
+      ctx.violation('results_differ', case, {'delivered': ids, 'expected': sorted(my_ids)},
+                    mechanism='poolops:as_completed_contended:results-differ')
+    execs = [e for e in list(c20lib.EXEC_LOG) if e[0] in my_ids]
+    stolen = []
+    for i, t0, t1 in probes:
+      for tid, tname, s0, s1 in execs:
+        if c20lib.ran_on(tname, servers[i].address) and s0 < t0 and t1 < s1:
+          stolen.append({'worker': i, 'task_of_pool_a': tid - base,
+                         'task_ran': [round(s0 - execs[0][2], 3), round(s1 - execs[0][2], 3)],
+                         'pool_b_acquired_at': round(t0 - execs[0][2], 3)})
+          break
+    if stolen:
+      first = min(t0 for _, t0, _ in probes)
+      # attributed to the audited root cause only if as_completed itself called
+      # release_all with an empty worker set while its tasks were in flight
+      after_trigger = bool(trigger) and trigger[0][0] <= first + 1.0
+      ctx.violation('busy_worker_acquired_by_other_pool', case,
+                    {'witnesses': stolen[:3], 'n': len(stolen),
+                     'release_all_with_empty_set_while_tasks_in_flight': len(trigger),
+                     'busy_workers_it_released': trigger[0][3] if trigger else None},
+                    mechanism=K_AC_RELEASE if after_trigger
+                    else 'poolops:as_completed_contended:busy-worker-acquirable')
+    held = [i for i, w in enumerate(workers) if w.is_locked()]
+    if held:
+      ctx.violation('workers_not_released', case, {'locked': held, 'raised': repr(exc)[:120]},
+                    mechanism='poolops:as_completed_contended:not-released-after-'
+                    + ('raise' if exc else 'return'))
+    if len(ctx.samples) < 6 and stolen:
+      ctx.sample({'mode': 'poolops', 'case': case, 'stolen': stolen[:2]})
   finally:
     cwork.stop_servers(servers, join_s=0.5)
 
 
 def gen_poolops_case(rng):
-  return {'mode': 'poolops', 'W': rng.randint(1, 3), 'par': rng.choice([1, 2]),
-          'op': rng.choice(['call_and_wait', 'run', 'as_completed']),
+  r = rng.random()
+  if r < 0.25:
+    return {'mode': 'poolops', 'op': 'as_completed_contended', 'W': rng.randint(1, 3),
+            'par': rng.choice([1, 1, 2]), 'fail': False,
+            'durs': [rng.choice([0.12, 0.2, 0.3]) for _ in range(rng.randint(1, 5))],
+            'probe_seed': rng.randrange(1 << 20)}
+  if r < 0.33:
+    W = rng.randint(1, 2)
+    return {'mode': 'poolops', 'op': 'run_all_busy', 'W': W, 'par': 1, 'fail': False,
+            'states': ['busy'] * W}
+  W = rng.randint(1, 3)
+  op = rng.choice(['call_and_wait', 'run', 'run', 'as_completed'])
+  case = {'mode': 'poolops', 'W': W, 'par': rng.choice([1, 2]), 'op': op,
           'fail': rng.random() < 0.5}
+  if op == 'call_and_wait':
+    # every listed worker is called: unusable workers only make it wait for deadlines
+    case['states'] = [rng.choice(['ok', 'ok', 'busy']) for _ in range(W)]
+    if rng.random() < 0.4:
+      case['arg'] = 'unpicklable'
+  else:
+    states = [rng.choice(['ok', 'ok', 'absent', 'exited', 'busy']) for _ in range(W)]
+    if 'ok' not in states:
+      states[rng.randrange(W)] = 'ok'
+    case['states'] = states
+  return case
 
 
 _RUN = {'registry': run_registry_case, 'liveness': run_liveness_case,
